@@ -293,6 +293,37 @@ def rule_pattern_and_export(ctx) -> None:
     chk.decide(kw.get("offset") == "segment_offset" and "bimg_descr['segments'].items()" in norm(gs.node) and "BootableImageSegment.from_label(segment_name)" in norm(gs.node), "C14.parse", gs.qual, "segments are built from the database table (name -> class, offset -> offset) in table order", f"{kw}", "", A.loc(BIMG, gs.node))
 
 
+RAW_KEEPERS = ["Segment", "SegmentFcb", "SegmentImageVersion", "SegmentImageVersionAntiPole", "SegmentMbi", "SegmentHab", "SegmentAhab"]
+
+
+def rule_raw_bytes(ctx) -> None:
+    """Parsing keeps the segment's bytes: parse_binary stores a slice of its input, never a re-export of the parsed object.
+    (SegmentXmcd is the one deliberate exception: a variable-length block stored in canonical re-exported form.)"""
+    chk = ctx.chk
+    for cn in RAW_KEEPERS:
+        c = ctx.cls(SEG, cn)
+        f = c.method("parse_binary")
+        if f is None:
+            raise AnalysisError(f"C14.raw-bytes: {cn}.parse_binary not found")
+        stores = [n for n in A.walk_no_nested(f.node) if isinstance(n, ast.Assign) and norm(n.targets[0]) == "self.raw_block"]
+        delegates = "super().parse_binary(" in norm(f.node)
+        if not stores and not delegates:
+            raise AnalysisError(f"C14.raw-bytes: {cn}.parse_binary neither stores raw_block nor delegates")
+        bad = []
+        for st in stores:
+            v = st.value
+            if isinstance(v, ast.IfExp):
+                parts = [v.body, v.orelse]
+            else:
+                parts = [v]
+            for pz in parts:
+                base = pz.value if isinstance(pz, ast.Subscript) else pz
+                if not (isinstance(base, ast.Name) and base.id == "binary"):
+                    bad.append(norm(st))
+        chk.decide(not bad, "C14.raw-bytes", f"{SEG}::{cn}.parse_binary", "the segment keeps a slice of the parsed input as its bytes", f"{bad[0] if bad else ''}: the stored bytes are not the input bytes (normalising re-export)", "self.raw_block = binary[...]", A.loc(SEG, f.node))
+    ctx.chk.report("C14.raw-bytes exception: SegmentXmcd.parse_binary stores xmcd.export() (variable-length block kept in canonical form)")
+
+
 def run(ctx) -> None:
     ctx.chk.explain("C14: all (family, revision, memory type) segment tables of the database are linted against the Segment class model reconstructed from the AST (names resolve, "
                     "static offsets increase in declaration order, fixed-size segments end before the next one, an application container exists, patterns valid); the dynamic "
@@ -302,6 +333,7 @@ def run(ctx) -> None:
     ctx.rule(rule_offsets)
     ctx.rule(rule_predicates)
     ctx.rule(rule_pattern_and_export)
+    ctx.rule(rule_raw_bytes)
     ctx.chk.assumptions = ["segment payload parsers are decided by their own properties (C01/C06/C07/C12)", "BinaryImage composition is decided in C16",
                            "not decided: byte equality after parse, floating-segment search inside binaries"]
 
